@@ -13,16 +13,15 @@ Verdict(c) ==
   ELSE IF \E k \in {1, 2, 3, 4, 5, 6, 7, 8, 9, 12} : c.ocols[k] # c.icols[k] THEN "other_column_altered"
   ELSE IF c.oopt # c.iopt THEN "optional_fields_altered"
   ELSE IF c.long THEN (IF c.ocols = c.icols /\ c.ocg = c.icg THEN "ok" ELSE "long_alignment_not_passed_through")
-  ELSE LET oo == Expand(c.ocg)
-           r == Walk(c.read, Ref(c), oo)
-       IN IF r[3] # 0 THEN (IF oo[r[3]] = "=" THEN "match_column_pairs_unequal_bases"
-                            ELSE IF oo[r[3]] = "X" THEN "mismatch_column_pairs_equal_bases" ELSE "cigar_overruns_a_sequence")
-          ELSE IF r[1] # Len(c.read) \/ r[2] # Len(Ref(c)) THEN "cigar_not_end_to_end"
-          ELSE IF c.ocols[10] # ToString(Count(oo, "=")) THEN "match_count_disagrees_with_cigar"
-          ELSE IF c.ocols[11] # ToString(Len(oo)) THEN "block_length_disagrees_with_cigar"
-          ELSE IF ~ValidAln(c.read, Ref(c), c.icg) THEN "harness_input_cigar_invalid"
-          ELSE IF Cost(oo) > Cost(Expand(c.icg)) THEN "cost_worse_than_input"
-          ELSE "ok"
+  ELSE LET r == RunWalk(c.read, Ref(c), c.ocg) IN
+       IF r[3] # 0 THEN (IF c.ocg[r[3]][2] = "=" THEN "match_column_pairs_unequal_bases"
+                         ELSE IF c.ocg[r[3]][2] = "X" THEN "mismatch_column_pairs_equal_bases" ELSE "cigar_overruns_a_sequence")
+       ELSE IF r[1] # Len(c.read) \/ r[2] # Len(Ref(c)) THEN "cigar_not_end_to_end"
+       ELSE IF c.ocols[10] # ToString(RunCount(c.ocg, "=")) THEN "match_count_disagrees_with_cigar"
+       ELSE IF c.ocols[11] # ToString(RunLen(c.ocg)) THEN "block_length_disagrees_with_cigar"
+       ELSE IF LET q == RunWalk(c.read, Ref(c), c.icg) IN q[3] # 0 \/ q[1] # Len(c.read) \/ q[2] # Len(Ref(c)) THEN "harness_input_cigar_invalid"
+       ELSE IF RunCost(c.ocg) > RunCost(c.icg) THEN "cost_worse_than_input"
+       ELSE "ok"
 CInit == i = 1 /\ AInit
 CNext == /\ i <= Len(Cases)
          /\ PrintT(<<"VERDICT", Cases[i].id, Verdict(Cases[i])>>)
